@@ -241,6 +241,8 @@ func runProbe(p *probe) {
 	run.Count("limit-probes:over-limit:"+p.Class, 1)
 	run.Max("over-limit-probe-bytes-pulled-beyond-decision-point", pulled-int64(p.decision))
 	run.Max("over-limit-probe-bytes-allocated", int64(alloc))
+	run.Max("over-limit-bytes-pulled:"+p.Class, pulled)
+	run.Max("over-limit-bytes-allocated:"+p.Class, int64(alloc))
 	class := p.Class
 	ok := true
 	if err == nil {
